@@ -107,6 +107,9 @@ class World {
   World();
   ~World();
   uint64_t now = 100000;  // ms (== coap ticks); starts away from 0 which libcoap uses as "unset"
+  // time also passes while libcoap works (as it does for a real process): when set, every creep_every-th reading of the clock finds it one
+  // millisecond later.  Off (0) unless a check asks for it - the checks that judge exact schedules keep the clock still inside a call.
+  unsigned creep_every = 0, clock_reads = 0;
   unsigned wire_count = 0;
   std::function<FaultDecision(const Datagram &, unsigned index)> fault;  // null = deliver everything at once
   std::vector<TraceEv> trace;
